@@ -159,7 +159,13 @@ impl MinidumpWriter {
 
         let threads_count = dumper.threads.len();
 
+        #[cfg(feature = "verif-hooks")]
+        crate::verif_hooks::fire(crate::verif_hooks::Point::ThreadsEnumerated);
+
         dumper.suspend_threads(soft_errors.subwriter(WriterError::SuspendThreadsErrors));
+
+        #[cfg(feature = "verif-hooks")]
+        crate::verif_hooks::fire(crate::verif_hooks::Point::ThreadsSuspended);
 
         if dumper.threads.is_empty() {
             soft_errors.push(WriterError::SuspendNoThreadsLeft(threads_count));
@@ -426,6 +432,9 @@ impl MinidumpWriter {
         // ADD NEW ENTRIES THAT ACCESS THE TARGET MEMORY, DO IT BEFORE HERE!
         //
         // ========================================================================================
+
+        #[cfg(feature = "verif-hooks")]
+        crate::verif_hooks::fire(crate::verif_hooks::Point::BeforeResume);
 
         // Collect any last-minute soft errors when trying to restart threads
         dumper.resume_threads(soft_errors.subwriter(WriterError::ResumeThreadsErrors));
